@@ -1418,3 +1418,7 @@ mod tests {
         }
     }
 }
+
+#[cfg(kani)]
+#[path = "/verif/kani/arrow-buffer/buffer/boolean.rs"]
+mod verif_kani;
